@@ -20,257 +20,7 @@ verus! {
 //@include env/tour_spec.vs
 
 
-//@item solution/src/path.rs Path::new_trusted : trusted
-//@retname r
-//@sig
-    requires nw.wf(), all_in_net(&nw, node_sequence@),
-    ensures
-        all_depots(&nw, node_sequence@) ==> r is None,
-        !all_depots(&nw, node_sequence@) ==> r is Some && r.unwrap().node_sequence@ == node_sequence@ && r.unwrap().network == nw,
-//@end
-
-//@item solution/src/tour.rs Tour::position_of : trusted
-//@retname r
-//@sig
-    requires self.wf(), self.network.has(node),
-    ensures
-        r is Ok ==> 0 <= r.unwrap() < self.len() && self.nodes@[r.unwrap() as int] == node,
-        r is Err ==> !self.nodes@.contains(node),
-//@end
-
-//@item solution/src/tour.rs Tour::earliest_arrival_after
-//@retname r
-//@sig
-    requires self.wf(), left < right <= self.len(), dt_ok(time),
-    ensures
-        r is Some ==> left <= r.unwrap() < right
-            && dt_lt(time, self.end_at(r.unwrap() as int))
-            && forall|j: int| left <= j < r.unwrap() ==> dt_le(#[trigger] self.end_at(j), time),
-        r is None ==> forall|j: int| left <= j < right ==> dt_le(#[trigger] self.end_at(j), time),
-    decreases right - left,
-//@first
-        broadcast use lemma_dt_cmp_rank;
-//@before "if left + 1 == right"
-        proof {
-            assert(self.network.has(self.nodes@[left as int]));
-            assert(self.network.nodes@.contains_key(self.nodes@[left as int]));
-        }
-//@before "let mid"
-            proof {
-                let mid0 = left + (right - left) / 2;
-                assert(left < mid0 < right);
-                assert(self.network.has(self.nodes@[mid0 - 1]));
-                assert(self.network.nodes@.contains_key(self.nodes@[mid0 - 1]));
-                assert forall|j: int| left <= j < mid0 - 1 implies
-                    dt_le(#[trigger] self.end_at(j), self.end_at(mid0 - 1)) by {
-                    lemma_ends_sorted(&self.network, self.nodes@, j, mid0 - 1);
-                }
-            }
-//@end
-
-//@item solution/src/tour.rs Tour::latest_departure_before
-//@retname r
-//@sig
-    requires self.wf(), left < right <= self.len(), dt_ok(time),
-    ensures
-        r is Some ==> left <= r.unwrap() < right
-            && dt_lt(self.start_at(r.unwrap() as int), time)
-            && forall|j: int| r.unwrap() < j < right ==> dt_le(time, #[trigger] self.start_at(j)),
-        r is None ==> forall|j: int| left <= j < right ==> dt_le(time, #[trigger] self.start_at(j)),
-    decreases right - left,
-//@first
-        broadcast use lemma_dt_cmp_rank;
-//@before "if left + 1 == right"
-        proof {
-            assert(self.network.has(self.nodes@[left as int]));
-            assert(self.network.nodes@.contains_key(self.nodes@[left as int]));
-        }
-//@before "let mid"
-            proof {
-                let mid0 = left + (right - left) / 2;
-                assert(left < mid0 < right);
-                assert(self.network.has(self.nodes@[mid0 as int]));
-                assert(self.network.nodes@.contains_key(self.nodes@[mid0 as int]));
-                assert forall|j: int| mid0 < j < right implies
-                    dt_le(self.start_at(mid0 as int), #[trigger] self.start_at(j)) by {
-                    lemma_ends_sorted(&self.network, self.nodes@, mid0 as int, j);
-                }
-            }
-//@end
-
-//@item solution/src/tour.rs Tour::latest_not_reaching_node
-//@retname r
-//@sig
-    requires self.wf(), self.network.has(node),
-    ensures
-        r is None <==> self.network.reach(self.nodes@[self.len() - 1], node),
-        r is Some ==> r.unwrap() < self.len() && self.is_start_pos(node, r.unwrap() as int), // @obl C12.latest_not_reaching_node.longest_prefix
-//@first
-        proof {
-            assert(self.network.has(self.nodes@[self.len() - 1]));
-            assert(self.network.nodes@.contains_key(node));
-        }
-//@before "let mut pos"
-        proof {
-            if candidate is Some {
-                let c = candidate.unwrap() as int;
-                assert forall|j: int| c <= j < self.len() implies !self.network.reach(#[trigger] self.nodes@[j], node) by {
-                    lemma_ends_sorted(&self.network, self.nodes@, c, j);
-                    assert(self.network.has(self.nodes@[j]));
-                    lemma_later_end_not_reach(&self.network, self.nodes@[j], node); // @obl C12.latest_not_reaching_node.no_connectable_node_dropped
-                }
-            }
-        }
-//@loop "while pos > 0"
-            invariant
-                self.wf(), self.network.has(node), 0 <= pos < self.len(),
-                forall|j: int| pos <= j < self.len() ==> !self.network.reach(#[trigger] self.nodes@[j], node),
-            decreases pos,
-//@end
-
-//@item solution/src/tour.rs Tour::latest_not_reached_by_node
-//@retname r
-//@sig
-    requires self.wf(), self.network.has(node),
-    ensures
-        r is None <==> self.network.reach(node, self.nodes@[0]),
-        r is Some ==> r.unwrap() < self.len() && self.is_end_pos(node, r.unwrap() + 1), // @obl C12.latest_not_reached_by_node.longest_suffix
-//@first
-        proof {
-            assert(self.network.has(self.nodes@[0]));
-            assert(self.network.nodes@.contains_key(node));
-        }
-//@before "let mut pos"
-        proof {
-            if candidate is Some {
-                let c = candidate.unwrap() as int;
-                assert forall|j: int| 0 <= j <= c implies !self.network.reach(node, #[trigger] self.nodes@[j]) by {
-                    lemma_ends_sorted(&self.network, self.nodes@, j, c);
-                    assert(self.network.has(self.nodes@[j]));
-                    lemma_later_end_not_reach(&self.network, node, self.nodes@[j]); // @obl C12.latest_not_reached_by_node.no_connectable_node_dropped
-                }
-            }
-        }
-//@loop "while pos < self.nodes.len() - 1"
-            invariant
-                self.wf(), self.network.has(node), 0 <= pos < self.len(),
-                forall|j: int| 0 <= j <= pos ==> !self.network.reach(node, #[trigger] self.nodes@[j]),
-            decreases self.len() - pos,
-//@end
-
-//@item solution/src/tour.rs Tour::get_insert_positions
-//@retname r
-//@sig
-    requires self.wf(), self.network.has(segment.start), self.network.has(segment.end), tour_len_ok(self.nodes@),
-    ensures
-        self.network.sp_node(segment.start).sp_is_depot() ==> r.0 == 0,
-        !self.network.sp_node(segment.start).sp_is_depot() ==> self.is_start_pos(segment.start, r.0 as int), // @obl C12.get_insert_positions.start_pos
-        self.network.sp_node(segment.end).sp_is_depot() ==> r.1 == self.len(),
-        !self.network.sp_node(segment.end).sp_is_depot() ==> self.is_end_pos(segment.end, r.1 as int), // @obl C12.get_insert_positions.end_pos
-        r.0 <= self.len(), r.1 <= self.len(),
-//@first
-        proof {
-            assert(self.network.has(self.nodes@[self.len() - 1]));
-            assert(self.network.has(self.nodes@[0]));
-        }
-//@end
-
-//@item solution/src/tour.rs Tour::check_if_sequence_is_removable
-//@retname r
-//@sig
-    requires self.wf(), start_position < self.len(), end_position < self.len(),
-    ensures r is Ok <==> self.removable(start_position as int, end_position as int), // @obl C12.check_removable.refusal
-//@first
-        proof {
-            if start_position > 0 && end_position < self.len() - 1 {
-                assert(self.network.has(self.nodes@[start_position - 1]));
-                assert(self.network.has(self.nodes@[end_position + 1]));
-            }
-        }
-//@end
-
-//@item solution/src/tour.rs Tour::check_removable
-//@retname r
-//@sig
-    requires self.wf(), self.network.has(segment.start), self.network.has(segment.end),
-    ensures
-        r is Ok ==> exists|s: int, e: int| 0 <= s < self.len() && 0 <= e < self.len() && self.nodes@[s] == segment.start
-            && self.nodes@[e] == segment.end && self.removable(s, e),
-//@end
-
-//@item solution/src/tour.rs Tour::conflict
-//@retname r
-//@sig
-    requires self.wf(), self.network.has(segment.start), self.network.has(segment.end), tour_len_ok(self.nodes@),
-        seg_ordered(&self.network, segment.start, segment.end),
-    ensures
-        exists|s: int, e: int| {
-            &&& 0 <= s <= e <= self.len()
-            &&& (if self.network.sp_node(segment.start).sp_is_depot() { s == 0 } else { self.is_start_pos(segment.start, s) })
-            &&& (if self.network.sp_node(segment.end).sp_is_depot() { e == self.len() } else { self.is_end_pos(segment.end, e) })
-            &&& (all_depots(&self.network, self.nodes@.subrange(s, e)) ==> r is None)
-            &&& (!all_depots(&self.network, self.nodes@.subrange(s, e)) ==> r is Some && r.unwrap().node_sequence@ == self.nodes@.subrange(s, e))
-        }, // @obl C12.conflict.reports_exactly_dropped
-//@before "Path::new_trusted"
-        proof {
-            lemma_positions_ordered(self, segment.start, segment.end, start_pos as int, end_pos as int);
-            assert forall|i: int| 0 <= i < self.nodes@.subrange(start_pos as int, end_pos as int).len() implies
-                #[trigger] self.network.has(self.nodes@.subrange(start_pos as int, end_pos as int)[i]) by {
-                assert(self.network.has(self.nodes@[start_pos + i]));
-            }
-        }
-//@end
-
-//@item solution/src/tour.rs Tour::sub_path
-//@retname r
-//@sig
-    requires self.wf(), self.network.has(segment.start), self.network.has(segment.end), tour_len_ok(self.nodes@),
-        // "A segment is a pair of non-depot node ids": at least not one depot taken alone
-        !(self.network.sp_node(segment.start).sp_is_depot() && segment.start == segment.end),
-    ensures
-        // C12: "extracting a sub-path of an existing segment always succeeds"
-        forall|i: int, j: int| 0 <= i <= j < self.len() && #[trigger] self.nodes@[i] == segment.start && #[trigger] self.nodes@[j] == segment.end
-            && !all_depots(&self.network, self.nodes@.subrange(i, j + 1))
-            ==> r is Ok && r.unwrap().node_sequence@ == self.nodes@.subrange(i, j + 1), // @obl C12.sub_path.always_succeeds
-        r is Ok ==> exists|i: int, j: int| 0 <= i <= j < self.len() && self.nodes@[i] == segment.start && self.nodes@[j] == segment.end
-            && r.unwrap().node_sequence@ == #[trigger] self.nodes@.subrange(i, j + 1),
-//@first
-        proof {
-            assert forall|i: int| 0 <= i < self.len() && #[trigger] self.nodes@[i] == segment.start implies
-                !self.network.reach(self.nodes@[self.len() - 1], segment.start) by {
-                lemma_member_not_reached_from_later(self, i, self.len() - 1);
-            }
-            assert forall|j: int| 0 <= j < self.len() && #[trigger] self.nodes@[j] == segment.end implies
-                !self.network.reach(self.nodes@[self.len() - 1], segment.end) by {
-                lemma_member_not_reached_from_later(self, j, self.len() - 1);
-            }
-        }
-//@before "if segment.start() != self.nodes[start_pos]"
-        proof {
-            assert forall|i: int| 0 <= i < self.len() && #[trigger] self.nodes@[i] == segment.start implies i == start_pos by {
-                lemma_member_start_pos(self, segment.start, i, start_pos as int);
-            }
-        }
-//@before "if segment.end() != self.nodes[end_pos]"
-        proof {
-            assert forall|j: int| 0 <= j < self.len() && #[trigger] self.nodes@[j] == segment.end implies j == end_pos by {
-                lemma_member_start_pos(self, segment.end, j, end_pos as int);
-            }
-        }
-//@before "Ok(Path::new_trusted"
-        proof {
-            let sub = self.nodes@.subrange(start_pos as int, end_pos + 1);
-            assert forall|i: int| 0 <= i < sub.len() implies #[trigger] self.network.has(sub[i]) by {
-                assert(self.network.has(self.nodes@[start_pos + i]));
-            }
-            // the slice contains an activity
-            let k: int = if start_pos == 0 && end_pos > 0 { 1 } else { start_pos as int };
-            lemma_tour_kinds(self, k);
-            lemma_tour_kinds(self, start_pos as int);
-            assert(sub[k - start_pos] == self.nodes@[k]);
-            assert(self.network.sp_node(sub[k - start_pos]).sp_is_activity());
-            assert(self.nodes@[start_pos as int] == segment.start && self.nodes@[end_pos as int] == segment.end);
-        }
-//@end
+//@include env/tour_stubs.vs
+//@include env/tour_pos_fns.vs
 } // verus!
 fn main() {}
